@@ -60,15 +60,19 @@ getStartIndex(
     // We always subtract 1 for C-style index, since
     // XPath indexes from 1.  
 
-    // If we end up with NaN, INF, or -INF, then no possible index
+    // If we end up with NaN or INF, then no possible index
     // can be greater than or equal to that, so just return
     // the start index as the length of the string.  That
     // will result in an empty string, which is what we want.
     if (DoubleSupport::isNaN(theSecondArgValue) == true ||
-        DoubleSupport::isPositiveInfinity(theSecondArgValue) == true ||
-        DoubleSupport::isNegativeInfinity(theSecondArgValue) == true)
+        DoubleSupport::isPositiveInfinity(theSecondArgValue) == true)
     {
         return theStringLength;
+    }
+    // Every index is greater than -INF.
+    else if (DoubleSupport::isNegativeInfinity(theSecondArgValue) == true)
+    {
+        return 0;
     }
     // Anything less than, or equal to 1 is 0.
     else if (DoubleSupport::lessThanOrEqual(theSecondArgValue, 1) == true)
@@ -93,7 +97,11 @@ getStartIndex(
                     1),
                 theResult));
 
-        return XalanDOMString::size_type(theResult);
+        // Don't convert a value that is beyond the end of the
+        // string, since it might not fit...
+        return theResult >= theStringLength ?
+                    theStringLength :
+                    XalanDOMString::size_type(theResult);
     }
 }
 
@@ -112,7 +120,6 @@ getSubstringLength(
 {
     assert(theStartIndex < theSourceStringLength);
     assert(DoubleSupport::isNaN(theSecondArgValue) == false);
-    assert(DoubleSupport::isNegativeInfinity(theSecondArgValue) == false);
     assert(DoubleSupport::isPositiveInfinity(theSecondArgValue) == false);
 
     typedef XalanDOMString::size_type   size_type;
@@ -138,7 +145,8 @@ getSubstringLength(
         }
         else if (DoubleSupport::isPositiveInfinity(theThirdArgValue) == true)
         {
-            return theMaxLength;
+            // -INF + INF is NaN, and no index is less than that...
+            return DoubleSupport::isNegativeInfinity(theSecondArgValue) == true ? 0 : theMaxLength;
         }
         else
         {
@@ -177,10 +185,12 @@ getSubstringLength(
             }
             else
             {
-                const size_type     theSubstringLength =
-                    size_type(theTotal) - theXPathStartIndex;
+                // Compare before converting, since the
+                // total might not fit...
+                const double    theLength =
+                    theTotal - theXPathStartIndex;
 
-                return theSubstringLength > theMaxLength ? theMaxLength : theSubstringLength;
+                return theLength >= theMaxLength ? theMaxLength : size_type(theLength);
             }
         }
     }
